@@ -40,6 +40,9 @@ type fakeS3 struct {
 	script  []string // ok | fail, per request; default ok
 	latency time.Duration
 	lat2    time.Duration // every second upload takes this long instead (0 = all uploads alike)
+	// occupied: an object already exists under the key of the first upload (left by an earlier run
+	// in the same second); a conditional write (If-None-Match: *) to it is refused with 412
+	occupied bool
 	ups     []upload
 	onReq   func(n int) // called before answering the n-th request (1-based)
 }
@@ -66,6 +69,13 @@ func (f *fakeS3) Do(req *http.Request) (*http.Response, error) {
 	f.mu.Unlock()
 	if hook != nil {
 		hook(n)
+	}
+	if f.occupied && n == 1 && req.Header.Get("If-None-Match") == "*" {
+		f.mu.Lock()
+		f.ups[n-1].ok = false // nothing was stored
+		f.mu.Unlock()
+		return &http.Response{StatusCode: 412, Status: "412 Precondition Failed", Header: http.Header{"Content-Type": {"application/xml"}},
+			Body: io.NopCloser(strings.NewReader(`<?xml version="1.0" encoding="UTF-8"?><Error><Code>PreconditionFailed</Code><Message>exists</Message></Error>`)), Request: req, ProtoMajor: 1, ProtoMinor: 1}, nil
 	}
 	if outcome == "stall" {
 		// the endpoint accepts the request and never answers: only the caller's own time limit ends it
@@ -209,7 +219,7 @@ func traceBackup(t *testing.T, o opts) {
 				if err != nil {
 					t.Fatal(err)
 				}
-				fs3 := &fakeS3{t0: time.Now(), script: append([]string(nil), script...), latency: time.Duration(latency) * time.Millisecond, lat2: time.Duration(lat2) * time.Millisecond}
+				fs3 := &fakeS3{t0: time.Now(), script: append([]string(nil), script...), latency: time.Duration(latency) * time.Millisecond, lat2: time.Duration(lat2) * time.Millisecond, occupied: h%4 == 1}
 				client := s3.New(s3.Options{Region: "us-east-1", HTTPClient: fs3,
 					Credentials:  credentials.NewStaticCredentialsProvider("AK", "SK", ""),
 					BaseEndpoint: aws.String("http://s3.invalid"), UsePathStyle: true, RetryMaxAttempts: 1})
